@@ -2,6 +2,13 @@
 stream through Ombott.__call__ (real code end to end), handler records what it saw."""
 from .stream import SimStream, SimHang, temp_seam
 from .wsgi import make_environ, call_app, ErrStream
+from .sched import no_preempt
+
+SHARED = {'on': False, 'app': None, 'cfg': None, 'n': 0, 'handlers': {}}
+
+
+def SHARED_index(path):
+    return int(path.rsplit('/', 1)[1])
 
 
 class Obs:
@@ -89,7 +96,25 @@ def body_request(wire, sched, *, B, M=None, cl=None, chunked=False, ctype=None, 
     cfg = {'max_memfile_size': B}
     if M is not None:
         cfg['max_body_size'] = M
-    app = ombott.Ombott(cfg)
+    path = '/x'
+    if SHARED['on']:
+        # concurrent twin run: all threads of the run serve through one application
+        with no_preempt():
+            if SHARED['app'] is None:
+                SHARED['app'] = ombott.Ombott(cfg)
+                SHARED['cfg'] = cfg
+                SHARED['handlers'] = {}
+                # one route for all threads of the run, registered before any of them serves
+                # (registering routes while another thread is resolving is not what is under test)
+                SHARED['app'].route('/x/<k:int>', method=['GET', 'POST', 'PUT', 'PATCH', 'DELETE'],
+                                    callback=lambda k, _h=SHARED['handlers']: _h[k]())
+            elif SHARED['cfg'] != cfg:
+                raise AssertionError(f'twin threads disagree on the application config: {SHARED["cfg"]} vs {cfg}')
+            app = SHARED['app']
+            SHARED['n'] += 1
+            path = '/x/%d' % SHARED['n']
+    else:
+        app = ombott.Ombott(cfg)
     with temp_seam(tempmode) as seam:
 
         def handler():
@@ -130,8 +155,11 @@ def body_request(wire, sched, *, B, M=None, cl=None, chunked=False, ctype=None, 
                 raise
             return 'ok'
 
-        app.route('/x', method=method, callback=handler)
-        env = make_environ(method, '/x', stream=stream, content_length=cl, content_type=ctype,
+        if SHARED['on']:
+            SHARED['handlers'][SHARED_index(path)] = handler
+        else:
+            app.route(path, method=method, callback=handler)
+        env = make_environ(method, path, stream=stream, content_length=cl, content_type=ctype,
                            chunked=chunked, errors=ErrStream())
         o.environ = env
         o.resp = call_app(app, env)
